@@ -477,7 +477,9 @@ func (c *ClientConn) SendUpstreamResumeRequest(ctx context.Context, req *message
 
 // SendUpstreamChunkは、UpstreamChunkを送信します。
 func (c *ClientConn) SendUpstreamChunk(ctx context.Context, req *message.UpstreamChunk) error {
+	c.upstreams.mu.RLock()
 	tr, ok := c.upstreams.messageWriters[req.StreamIDAlias]
+	c.upstreams.mu.RUnlock()
 
 	if !ok {
 		return errors.New("stream not exist")
@@ -745,6 +747,8 @@ func (c *ClientConn) readDisconnectLoop() {
 
 func (c *ClientConn) readUpstreamChunkAckLoop() {
 	defer func() {
+		c.upstreams.mu.Lock()
+		defer c.upstreams.mu.Unlock()
 		for _, ackCh := range c.upstreams.acks {
 			close(ackCh)
 		}
